@@ -665,3 +665,88 @@ def make_p_snapshot_content(ex):
                     return ("snapshot-map", "the snapshot does not hold the in-memory map", dict(pred="snapshot_content"))
         return None
     return p
+
+
+def make_p_wal_never_truncated(ex):
+    def p(sw, f):
+        """C03/C20: a WAL segment that may hold records is never opened with truncate (File::create / O_TRUNC):
+        a create-or-truncate open of a segment is only allowed right after the code established that the
+        file does not exist"""
+        known_absent = []
+        for e in f.trace:
+            if e["kind"] != "io":
+                continue
+            p_ = e.get("path") or ("",)
+            if e["op"] == "exists?" and p_[0] == "wal":
+                known_absent.append((p_, e["outcome"]))
+            if e["op"] == "open" and p_[0] == "wal" and e.get("flags", {}).get("truncate") and e["outcome"] == "ok":
+                ok_ = False
+                for (pp, b) in known_absent:
+                    if str(pp) == str(p_) and not ex.feasible(f.pc, b):
+                        ok_ = True
+                if not ok_:
+                    return ("wal-truncated", "a WAL segment is opened with create+truncate without knowing that it does not exist "
+                            "(records in it are destroyed)", dict(pred="wal_never_truncated"))
+        return None
+
+    def native(sw, f):
+        written = set()
+        for i, e in _io(f):
+            p_ = e.get("path") or ("",)
+            if p_[0] != "wal":
+                continue
+            if e["op"] == "write" and e["outcome"] == "ok":
+                written.add(p_)
+            if e["op"] == "unlink" and e["outcome"] == "ok":
+                written.discard(p_)
+            if e["op"] == "open" and e.get("flags", {}).get("truncate") and p_ in written:
+                return ("wal-truncated", "a WAL segment that already holds records is opened with O_TRUNC", dict(pred="wal_never_truncated"))
+        return None
+    p.native = native
+    return p
+
+
+# ---- C03: crash during first-time initialisation --------------------------------------------------------
+
+def p_init_crash_safe(sw, f):
+    """C03 (first-time initialisation): until the index is loaded, every filesystem effect of opening a store
+    is either idempotent and invisible to a later open (create_dir_all, create/lock of the LOCK file, a scratch
+    settings file) or THE atomic installation of a completely written and synced settings file.  A kill at
+    any cut therefore leaves either 'no settings yet' (the next open initialises again) or a complete store
+    header; nothing else is created, removed or overwritten before the header exists."""
+    tmp_state = {}
+    for e in f.trace:
+        if e["kind"] != "io":
+            continue
+        op, p_ = e["op"], e.get("path") or ("",)
+        okc = isinstance(e["outcome"], str) and e["outcome"] == "ok"
+        if op == "index-load":
+            break
+        if op in ("mkdir", "read", "exists?", "trylock", "read_dir"):
+            continue
+        if p_ == ("lock",) and op == "open":
+            continue
+        if p_[0] == "settings" and len(p_) > 1:      # the scratch file
+            s = tmp_state.setdefault(p_, dict(written=False, synced=False))
+            if op == "open":
+                s.update(written=False, synced=False)
+            elif op == "write" and okc:
+                data = e.get("data", [])
+                whole = any(isinstance(d, tuple) and len(d) == 2 and isinstance(d[1], tuple) and d[1] and d[1][0] == "settings-json" for d in data)
+                s.update(written=whole, synced=False)
+            elif op == "sync" and okc:
+                s["synced"] = True
+            elif op == "rename" and okc:
+                if e.get("dst") != ("settings",):
+                    return ("init-not-crash-safe", "the scratch settings file is renamed to something else than the settings file", dict(pred="init_crash_safe"))
+                if not (s["written"] and s["synced"]):
+                    return ("init-not-crash-safe", "the settings file is installed before it was completely written and synced: a crash leaves a "
+                            "store header the next open cannot parse", dict(pred="init_crash_safe"))
+            elif op == "unlink":
+                continue
+            continue
+        if not okc and op in ("open", "write", "sync", "rename", "unlink"):
+            continue
+        return ("init-not-crash-safe", f"before the store header exists / the index is loaded, initialisation performs {op} on {p_[0]}: a crash "
+                "there is visible to the next open", dict(pred="init_crash_safe"))
+    return None
